@@ -260,7 +260,28 @@ func c05Base(c *Ctx, p *Prog) {
 		n++
 		res := o.Results[0]
 		if *hasSlash {
-			ok := res.Op == "slice" && res.Args[0].Op == "param" && strings.Contains(res.Args[2].String(), "bytes.IndexByte") && !strings.Contains(res.String(), split.Name())
+			// the text before the first '/' of the name — or of the splitter's prefix, which has the same first '/'
+			// because the -N suffix the splitter removes contains none; what is cut and what is searched must be the
+			// same text
+			ok := false
+			if res.Op == "slice" && len(res.Args) >= 3 && res.Args[2] != nil {
+				cut := res.Args[0]
+				isName := func(s *Sym) bool {
+					if s.Op == "param" {
+						return true
+					}
+					if s.Op == "call" && strings.HasSuffix(strings.Split(s.Name, "@")[0], ".Full") && len(s.Args) == 1 && s.Args[0].Op == "param" {
+						return true
+					}
+					return s.Op == "extract" && s.Idx == 0 && s.Args[0].Op == "call" && strings.Contains(s.Args[0].Name, split.Name())
+				}
+				hi := res.Args[2]
+				if hi.Op == "call" && strings.HasPrefix(hi.Name, "bytes.IndexByte") && len(hi.Args) == 2 && isName(cut) && isName(hi.Args[0]) {
+					searched := hi.Args[0]
+					same := searched.String() == cut.String() || (searched.Op == "call" && cut.Op == "param") || (searched.Op == "param" && cut.Op == "call")
+					ok = same && (res.Args[1] == nil || res.Args[1].String() == "0" || res.Args[1].String() == "zero")
+				}
+			}
 			c.Check(ok, R, "Base[name has '/']", site, "the text before the first '/', untouched", "with a '/' in the name Base is not simply the text before the first '/': for 'Test-8/foo' Base and the first element of Parts disagree, so .name matches differently from the decomposition")
 		} else {
 			ok := res.Op == "extract" && res.Idx == 0 && res.Args[0].Op == "call" && strings.Contains(res.Args[0].Name, split.Name())
